@@ -214,7 +214,7 @@ def main(tier: str) -> int:
         jobs.append(dict(module="Convert_Gen", cfg_text=cfg(0, True, tier, rich=not big), defs=d, timeout=2400))
         jobs.append(dict(module="Convert_Gen", cfg_text=cfg(1, False, tier, rich=not big), defs=d, timeout=2400))
     # Kruskal / Tucker holders of order 5 and unbalanced order 4 (three or more factors in one Khatri-Rao group)
-    for s in ([(2, 2, 2, 2, 2), (2, 3, 2, 7)] if tier == "quick" else [(2, 2, 2, 2, 2), (2, 3, 2, 7), (7, 2, 3, 2), (2, 1, 3, 2, 2), (2, 2, 2, 2, 2, 2)]):
+    for s in ([(2, 2, 2, 2, 2), (2, 3, 2, 7), (2, 50, 3)] if tier == "quick" else [(2, 2, 2, 2, 2), (2, 3, 2, 7), (7, 2, 3, 2), (2, 1, 3, 2, 2), (2, 2, 2, 2, 2, 2), (2, 50, 3), (40, 5)]):
         jobs.append(dict(module="Convert_Gen", cfg_text=cfg(1, False, tier, rich=False, konly=True),
                          defs={"ShapeC": tla.tla(list(s))}, timeout=2400))
     sim_shapes = [(2, 3, 2), (1, 2, 3), (2, 3)] if tier == "quick" else \
